@@ -80,12 +80,18 @@ func c02GenOp(t *rapid.T, first bool, ver int) *world.Op {
 				op.Chart.Resources[k].NS = "other"
 			}
 		}
+		// one object of a kind that the cluster serves under two API versions; charts move from one to the other
+		if rapid.IntRange(0, 2).Draw(t, "withHPA") == 0 {
+			op.Chart.Resources = append(op.Chart.Resources, world.Res{Kind: "HorizontalPodAutoscaler", Name: "hpa", Variant: rapid.IntRange(0, 2).Draw(t, "hpaVariant"),
+				APIVer: rapid.SampledFrom([]string{"", "autoscaling/v2"}).Draw(t, "hpaAPIVersion")})
+		}
 		if !op.DisableHooks {
 			op.Chart.Hooks = genSimpleHooks(t)
 		}
 	}
 	// earlier operations may fail: a cluster-side fault at low weight (the faulted operation itself is not judged)
-	if rapid.IntRange(0, 5).Draw(t, "faulted") == 0 && op.Kind != "uninstall" {
+	// (an uninstall interrupted half-way - status uninstalling, some objects gone - is what the retry then has to finish)
+	if n := rapid.IntRange(0, 5).Draw(t, "faulted"); n == 0 || (n == 1 && op.Kind == "uninstall") {
 		op.Fault = world.Fault{Kind: rapid.SampledFrom([]string{"kube", "wait"}).Draw(t, "faultKind"), K: rapid.IntRange(0, 8).Draw(t, "faultK")}
 	}
 	return op
@@ -429,6 +435,7 @@ func c02Prop(t *rapid.T) {
 	lbl := map[string]bool{}
 	var fp []string
 	nontrivial := false
+	retryUninstall := false
 	for i := 0; i < nops; i++ {
 		// out-of-band actions on objects the release currently manages
 		if len(w.History()) > 0 {
@@ -440,6 +447,15 @@ func c02Prop(t *rapid.T) {
 			}
 		}
 		op := c02GenOp(t, len(w.History()) == 0, i+1)
+		// an uninstall that failed half-way is usually simply run again
+		if h := w.History(); retryUninstall && len(h) > 0 && rapid.IntRange(0, 2).Draw(t, "retryUninstall") > 0 {
+			op = &world.Op{Kind: "uninstall", DisableHooks: op.DisableHooks, KeepHistory: rapid.IntRange(0, 3).Draw(t, "retryKeepHistory") == 0}
+			lbl["uninstall-retried-after-a-failed-uninstall"] = true
+		}
+		if op.Kind == "uninstall" && op.Fault.Kind != "" {
+			// fault positions that exist in this uninstall (it makes few requests)
+			op.Fault = genPhasedFault(t, w, op)
+		}
 		// a quarter of the upgrades re-apply the chart of the deployed revision unchanged (drift correction)
 		if op.Kind == "upgrade" {
 			if d := deployedRevs(w.History()); len(d) == 1 && rapid.IntRange(0, 3).Draw(t, "sameChart") == 0 {
@@ -451,6 +467,7 @@ func c02Prop(t *rapid.T) {
 		}
 		oobManaged := len(j.oobSince) > 0
 		cut, res := j.runStep(c02Step{Op: op})
+		retryUninstall = op.Kind == "uninstall" && res.Err != nil && res.Fired
 		fp = append(fp, op.Describe())
 		if res.Err == nil && !res.Fired {
 			lbl["success:"+op.Kind] = true
